@@ -170,3 +170,4 @@ def c02_generate_commits_every_atr(ctx, v):
     the slip types of its outputs (same obligation as C13 c13_generate_commits_every_atr)."""
     from . import obl_c13
     obl_c13.c13_generate_commits_every_atr(ctx, v)
+
